@@ -89,6 +89,20 @@ CHECKS += [
            "array-name and stepper-class cases; generated code itself not examined"),
 ]
 
+CHECKS += [
+ dict(id='C14',
+      text="Slice of C14 that contracts decide, proved for all values: for the six interpolation equations the loop adds "
+           "exactly the documented term per neighbour (inductive step of the defining sums), initialize zeroes every "
+           "accumulator the loop uses and only the destination's block, post_loop divides iff the denominator > 1e-12; "
+           "Shepard lemmas as relational invariants (constant reproduced, result within [min,max] of contributing values, "
+           "0 without neighbours); order1: b = M u is invariant for any linear field and post_loop hands (M, b, dim+1) to "
+           "augmented_matrix/gj_solve; traces of Interpolator.interpolate (every source's temp_prop written, 0.0 when the "
+           "property is absent; prop[comp::4]), update_particle_arrays and update. One defect repaired (fix: abc38e9).",
+      note="float = R; group order (C03), neighbours (C01), compiled = Python (C02) and gj_solve soundness (C13) assumed; "
+           "the induction over the neighbour list from the per-neighbour step is the standard loop induction, not "
+           "machine-checked here; SPHEvaluator/compiled evaluation not examined"),
+]
+
 NOT_APPLICABLE = [
  dict(property_id='C11', reason="round trip runs through numpy.savez/numpy.load/h5py and the compiled ParticleArray constructor; the repository code in between is dict/bytes glue no contract within reach can express (DESIGN.md section 4)"),
  dict(property_id='C12', reason="finite enumeration of scheme options decided by executing scheme code, generating and running; no function-level contract states it (DESIGN.md section 4)"),
@@ -96,7 +110,7 @@ NOT_APPLICABLE = [
 ]
 # properties not yet under a registered check are listed as not applicable
 # "pending" until their check lands, so the manifest is valid at all times
-PENDING = ['C01','C02','C03','C04','C05','C06','C07','C14','C16','C17']
+PENDING = ['C01','C02','C03','C04','C05','C06','C07','C16','C17']
 for p in PENDING:
     if p not in [c['id'] for c in CHECKS]:
         NOT_APPLICABLE.append(dict(property_id=p, reason="check not registered yet in this commit (work in progress, see DESIGN.md section 3 for the planned contracts)"))
